@@ -85,11 +85,16 @@ public class JMon {
           case 1007: name = "Atomic_Factors"; nv = 3; call = () -> Xraylib.Atomic_Factors(I[0], D[0], D[1], D[2]); break;
           case 1008: name = "SymbolToAtomicNumber"; call = () -> new double[]{ Xraylib.SymbolToAtomicNumber(s) }; break;
           case 1009: name = "CompoundParser"; nv = 3; useAux = true; call = () -> { compoundData c = Xraylib.CompoundParser(s); double h = 0; for (int j = 0; j < c.nElements; j++) h += c.Elements[j] * c.massFractions[j] + 1e3 * (j + 1) * c.nAtoms[j];
+                     for (int j = 0; j < c.nElements; j++) { c.massFractions[j] = -1; c.nAtoms[j] = -1; c.Elements[j] = 0; }
                      return new double[]{ c.nAtomsAll, c.molarMass, h, c.nElements }; }; break;
           case 1010: case 1011: name = fn == 1010 ? "GetCompoundDataNISTByName" : "GetCompoundDataNISTByIndex"; nv = 3; useAux = true; call = () -> { compoundDataNIST c = fn == 1010 ? Xraylib.GetCompoundDataNISTByName(s) : Xraylib.GetCompoundDataNISTByIndex(I[0]);
-                     double h = 0, g = 0; for (int j = 0; j < c.nElements; j++) { h += c.Elements[j] * c.massFractions[j]; g += (j + 1) * c.massFractions[j]; } return new double[]{ c.density, h, g, c.nElements }; }; break;
+                     double h = 0, g = 0; for (int j = 0; j < c.nElements; j++) { h += c.Elements[j] * c.massFractions[j]; g += (j + 1) * c.massFractions[j]; }
+                     /* the caller owns what a lookup returns (C hands out a fresh copy): scribble on it - later lookups of the same entry must not notice */
+                     for (int j = 0; j < c.nElements; j++) { c.massFractions[j] *= 100.0; c.Elements[j] = 0; }
+                     return new double[]{ c.density, h, g, c.nElements }; }; break;
           case 1012: case 1013: name = fn == 1013 ? "GetRadioNuclideDataByName" : "GetRadioNuclideDataByIndex"; nv = 3; useAux = true; call = () -> { radioNuclideData c = fn == 1013 ? Xraylib.GetRadioNuclideDataByName(s) : Xraylib.GetRadioNuclideDataByIndex(I[0]);
                      double h = 0, g = 0; for (int j = 0; j < c.nXrays; j++) h += c.XrayIntensities[j] * (c.XrayLines[j] - 1000 * j); for (int j = 0; j < c.nGammas; j++) g += c.GammaEnergies[j] * c.GammaIntensities[j] * (j + 1);
+                     for (int j = 0; j < c.nXrays; j++) { c.XrayIntensities[j] = -1; c.XrayLines[j] = 0; } for (int j = 0; j < c.nGammas; j++) { c.GammaEnergies[j] = -1; c.GammaIntensities[j] = -1; }
                      return new double[]{ c.N + 1000.0 * c.Z_xray + 1e6 * c.nXrays + 1e9 * c.nGammas, h, g, c.Z * 1000 + c.A }; }; break;
           case 1014: name = "AtomicNumberToSymbol"; call = () -> { String t = Xraylib.AtomicNumberToSymbol(I[0]); return new double[]{ t.charAt(0) + (t.length() > 1 ? 256.0 * t.charAt(1) : 0) + (t.length() > 2 ? 65536.0 * t.charAt(2) : 0) }; }; break;
           default: continue;
